@@ -287,6 +287,7 @@ func c14() []*Ob {
 			Check: func(c *Ctx) {
 				if fn := c.Fn("fracmanager.sortIDs"); fn != nil {
 					var param ssa.Value
+					_ = param
 					if len(fn.Params) > 0 {
 						param = fn.Params[0]
 					}
